@@ -24,6 +24,9 @@ def plan(tier, seed):
         (corner("real", prefix=A.DEEP_GL_EOM, name="real-deep-root-in-eom"), A.timing(), 2),
         (corner("real", prefix=[("slm", ["q0"])] + A.GL, name="real-ising-slm-mask"), A.timing(dmm=True), 2),
         (corner("real", prefix=A.GL, max_dur=100, retarget=220, name="real-max-duration-below-waits"), A.timing(), 2),
+        # two channels on ONE basis with different clocks: a phase barrier set by the fine channel is off the coarse channel's grid
+        (corner("unit", prefix=A.GR, over={"rydberg_local": dict(clock=4, min_dur=8)}, name="unit-samebasis-clock-1-vs-4"),
+         A.timing(l="r", basis_l="ground-rydberg", eom=False), 3),
         (corner("unit8", prefix=A.GL, bw=30, eom=dict(mod_bandwidth=8), name="unit8-eom-slower-than-channel"), A.timing(), 2),
         (corner("awk", prefix=A.DEEP_GL_AFTER, name="awk-deep-root-after-eom"), A.timing(), 2),
     ]
